@@ -292,9 +292,14 @@ class Point(object):
                 raise ValueError("The PEP must be solved to evaluate Points!")
             # If linear combination, combine the values of the leaf, and store the result before returning it.
             else:
-                value = np.zeros(Point.counter)
+                value = None
                 for point, weight in self.decomposition_dict.items():
-                    value += weight * point.eval()
+                    if value is None:
+                        value = weight * point.eval()
+                    else:
+                        value = value + weight * point.eval()
+                if value is None:
+                    value = np.zeros(Point.counter)
                 self._value = value
 
         return self._value
